@@ -257,7 +257,7 @@ class TitleMetadataReader:
         save_size_le = self.save_size.to_bytes(4, 'little')
         srl_save_size_le = self.srl_save_size.to_bytes(4, 'little')
 
-        header = pack('>64s b b b b 8s 8s 4s 2s 4s 4s 4s b 49s 4s H H 2s 2s 32s',
+        header = pack('>64s B B B B 8s 8s 4s 2s 4s 4s 4s B 49s 4s H H 2s 2s 32s',
                       self._u_issuer.encode('ascii'),
                       self._u_version,
                       self._u_ca_crl_version,
